@@ -423,6 +423,8 @@ const FK_BENIGN: &[&str] = &["short_write", "interrupted"];
 
 fn knobs_functional(tier: Tier) -> Knobs {
     let mut k = Knobs::functional();
+    // one long run in a hundred has thousands to tens of thousands of tiny frames (count thresholds)
+    k.huge_of_long_pct = 1;
     if tier == Tier::Thorough {
         k.big_frames = 20;
         k.long_max = 400;
